@@ -60,16 +60,39 @@ pub struct Cli {
     pub clock: u64,
     pub txns: Vec<u32>,
     pub sids: Vec<u32>,
+    pub wire: Option<WireLog>,
+    pub clock_mode: u64,
+}
+
+pub fn packets_of(rs: &[ClientSessionResult]) -> Vec<&rml_rtmp::chunk_io::Packet> {
+    rs.iter().filter_map(|r| if let ClientSessionResult::OutboundResponse(p) = r { Some(p) } else { None }).collect()
 }
 
 impl Cli {
     pub fn new(cfg: ClientSessionConfig, clock: u64) -> (Cli, Value) {
+        Cli::new_wired(cfg, clock, None)
+    }
+
+    pub fn tick(&mut self, rng: &mut Rng) {
+        self.clock = crate::server::next_clock(rng, self.clock, self.clock_mode);
+    }
+
+    fn wire_record(&mut self, rs: &[ClientSessionResult]) {
+        let taps = rml_rtmp::verif::tap_drain();
+        if let Some(wl) = self.wire.as_mut() {
+            wl.record(&packets_of(rs), taps);
+        }
+    }
+
+    pub fn new_wired(cfg: ClientSessionConfig, clock: u64, wire: Option<WireLog>) -> (Cli, Value) {
         rml_rtmp::verif::set_clock(Some(clock));
+        rml_rtmp::verif::tap_start(true);
         let cfgj = json!({"cs":cfg.chunk_size,"win":w(cfg.window_ack_size)});
         let (s, rs) = ClientSession::new(cfg).expect("client session");
         let mut peer = Peer::new();
         let results = results_json(&mut peer, &rs);
-        let c = Cli { s, peer, clock, txns: vec![], sids: vec![] };
+        let mut c = Cli { s, peer, clock, txns: vec![], sids: vec![], wire, clock_mode: 0 };
+        c.wire_record(&rs);
         let ev = json!({"ev":"New","cfg":cfgj,"res":"ok","results":results,"probe":probe_json(&c.s)});
         (c, ev)
     }
@@ -85,9 +108,14 @@ impl Cli {
         }
     }
     pub fn input(&mut self, desc: Value, bytes: &[u8]) -> Value {
-        self.clock += 3;
+        if self.clock_mode == 0 { self.clock += 3; }
         rml_rtmp::verif::set_clock(Some(self.clock));
+        let _ = rml_rtmp::verif::tap_drain();
         let r = catch_unwind(AssertUnwindSafe(|| self.s.handle_input(bytes)));
+        match &r {
+            Ok(Ok(rs)) => self.wire_record(rs),
+            _ => self.wire_record(&[]),
+        }
         let (res, results) = match r {
             Ok(Ok(rs)) => ("ok".to_string(), results_json(&mut self.peer, &rs)),
             Ok(Err(e)) => (format!("err:{:?}", e), vec![]),
@@ -97,10 +125,17 @@ impl Cli {
         json!({"ev":"In","i":desc,"n":bytes.len(),"res":res,"results":results,"probe":probe_json(&self.s)})
     }
     pub fn call(&mut self, desc: Value, f: &mut dyn FnMut(&mut ClientSession) -> Result<Vec<ClientSessionResult>, String>) -> Value {
-        self.clock += 3;
+        if self.clock_mode == 0 { self.clock += 3; }
         rml_rtmp::verif::set_clock(Some(self.clock));
-        let s = &mut self.s;
-        let r = catch_unwind(AssertUnwindSafe(|| f(s)));
+        let _ = rml_rtmp::verif::tap_drain();
+        let r = {
+            let s = &mut self.s;
+            catch_unwind(AssertUnwindSafe(|| f(s)))
+        };
+        match &r {
+            Ok(Ok(rs)) => self.wire_record(rs),
+            _ => self.wire_record(&[]),
+        }
         let (res, results) = match r {
             Ok(Ok(rs)) => ("ok".to_string(), results_json(&mut self.peer, &rs)),
             Ok(Err(e)) => (format!("err:{}", e), vec![]),
@@ -301,10 +336,21 @@ pub fn generate(kind: &str, tier: &str, seed: u64, shard: u64, nshards: u64, pat
     let mut rng = Rng::new(seed ^ shard.wrapping_mul(0x7F4A7C15) ^ 404);
     let nruns = (if tier == "thorough" { 2400 } else { 400 }) / nshards as usize + 1;
     let mut steps = 0usize;
+    let wired = kind == "wire";
+    let mut wt = if wired { Some(Trace::create(&format!("{}.wire", path))) } else { None };
+    let mut wc0 = 0usize;
+    let mut packets = 0usize;
+    let mut lost = 0usize;
     for r in 0..nruns {
-        let (mut c, ev) = Cli::new(gen_config(&mut rng), *rng.pick(&[0u64, 5, 1000]));
+        let cfg = gen_config(&mut rng);
+        let small_cs = cfg.chunk_size < 128;
+        let wl = wt.as_ref().map(|t| WireLog { run: crate::chunk::Run::new(t, "all", true), lost: 0, packets: 0 });
+        let start = if wired { *rng.pick(&[0u64, (1 << 24) - 3, (1u64 << 32) - 4, 1000]) } else { *rng.pick(&[0u64, 5, 1000]) };
+        let (mut c, ev) = Cli::new_wired(cfg, start, wl);
+        c.clock_mode = if wired { 1 } else { 0 };
         t.emit(&ev);
-        let padlens: Vec<usize> = if kind == "ack" { vec![0, 1, 2, 3, 5, 16, 17, 100, 4095, 4096, 4097] } else { vec![0, 1, 5, 127, 128, 129, 4096, 5000] };
+        let padlens: Vec<usize> = if kind == "ack" { vec![0, 1, 2, 3, 5, 16, 17, 100, 4095, 4096, 4097] }
+            else if wired && small_cs { vec![0, 1, 2, 5, 31, 64] } else { vec![0, 1, 5, 127, 128, 129, 4096, 5000] };
         warmup(&mut rng, &mut c, &mut t, (r % 6) as u64);
         if kind == "ack" {
             let v = *rng.pick(&[1u32, 2, 3, 16, 17, 18, 100, 4096, 4097, 1 << 20, 0x80000000, 0xFFFFFFFF]);
@@ -314,6 +360,7 @@ pub fn generate(kind: &str, tier: &str, seed: u64, shard: u64, nshards: u64, pat
         let n = rng.range(5, 40);
         let mut prev_probe = probe_json(&c.s);
         for _ in 0..n {
+            c.tick(&mut rng);
             let e = random_step(&mut rng, &mut c, &padlens);
             let dead = e["res"].as_str().map(|x| x.starts_with("panic") || (e["ev"] == "In" && x.starts_with("err") && lost_ack(&prev_probe, &e))).unwrap_or(false);
             prev_probe = e["probe"].clone();
@@ -323,7 +370,15 @@ pub fn generate(kind: &str, tier: &str, seed: u64, shard: u64, nshards: u64, pat
                 break;
             }
         }
+        if let (Some(wl), Some(w)) = (c.wire.take(), wt.as_mut()) {
+            packets += wl.packets;
+            lost += wl.lost;
+            wl.run.finish(w, &mut wc0, false);
+        }
     }
     t.flush();
-    json!({"kind":kind,"runs":nruns,"steps":steps,"lines":t.line,"path":path})
+    if let Some(w) = wt.as_mut() {
+        w.flush();
+    }
+    json!({"kind":kind,"runs":nruns,"steps":steps,"lines":t.line,"path":path,"packets":packets,"lost":lost})
 }
